@@ -17,7 +17,9 @@ META = dict(
           "loops of Bound_Function::build_param_list; for every pattern of stored values and placeholders and every argument list they compute the specification "
           "[bind_loops_are_the_specification], under which a stored value reaches the parameter it was bound to, the call's arguments reach the placeholders' "
           "parameters in order, and the callee receives as many values as bind was given [bind_stored_values_stay, bind_call_arguments_in_order, bind_arity]; tied "
-          "to the code by running the real bind over EVERY pattern of up to 4 (thorough: 5) parameters x every number of call arguments x two parameter typings."),
+          "to the code by running the real bind over EVERY pattern of up to 4 (thorough: 5) parameters x every number of call arguments x two parameter typings. "
+          "Arity, model-free and exhaustive: every callable form (function, function held in a variable, overloaded pair, constructor, member function, data member, script "
+          "function) x 0..3 declared parameters x 0..4 call arguments: entered exactly when the counts agree, with the arguments in order; otherwise an error before anything is entered."),
     note=("Trusted: Lean kernel, harness/dispatch.cpp (catalogue of 38 C++ functions and 25 value kinds; the post-sort overload order is read from the "
           "engine, function_less_than is not modelled), Spec/Cast.lean. Catalogue functions never throw bad_boxed_cast themselves (dispatch() would treat "
           "that as 'try the next overload'); std::function parameters, variadic functions and dynamic (script) overloads with guards are not in the catalogue."),
@@ -103,6 +105,33 @@ def run(ctx):
         bm = C.run_driver("dispatch", bcases)
     found += C.compare_streams(ctx, "dispatch", bcases, bm, bout, nontrivial=lambda impl, line: impl.startswith("entered"), bucket=lambda line: "bind")
     ctx.cov["bind_cases"] = len(bcases)
+    # arity: every callable form x 0..3 declared parameters x 0..4 call arguments (non-overloaded names are stored as the bare function: no dispatch pre-filter)
+    acases, aexp = [], []
+    for form in ("fun", "var", "pair", "ctor", "method", "attr", "script"):
+        for k in range(4):
+            for n in range(5):
+                if form == "attr" and k:
+                    continue
+                acases.append("arity %s %d %d" % (form, k, n))
+                got = " ".join(str(10 + j) for j in range(n))
+                if form == "attr":
+                    aexp.append("returned-without-entering" if n == 0 else "error")
+                elif form == "script":
+                    aexp.append("entered %d" % k if n == k else "error")
+                elif form == "pair":
+                    aexp.append(("entered %d %s" % (n, got)).strip() if n in (k, (k + 2) % 4) else "error")
+                else:
+                    aexp.append(("entered %d %s" % (k, got)).strip() if n == k else "error")
+    with ctx.timer("impl"):
+        aout, _ = C.run_harness_resilient(exe, [], acases, timeout=1500)
+    abad = [(c, o, e) for c, o, e in zip(acases, aout, aexp) if o != e]
+    ctx.count("evaluations", len(acases))
+    ctx.cov["arity_cases"] = len(acases)
+    for c, o, e in abad[:4]:
+        found += 1
+        ctx.violation("input", {"mode": "dispatch", "case": c, "observed": o, "expected": e,
+                                "rule": "a callable with k declared parameters is entered exactly when it is called with k arguments, and then receives them in order; any other count raises without entering anything",
+                                "how_to_replay": "echo '%s' | build/harness/dispatch/<bin>" % c})
     ctx.cov["cast_matrix"] = {"kinds": len(KINDS), "params": len(ONE), "exhaustive": True}
     ctx.cov["rule"] = ("exhaustive (value kind x parameter form) cast matrix (%d cells) + seeded (overload subset, registration order, argument tuple) dispatch cases over a "
                        "catalogue of 30 one-parameter and 12 two-parameter C++ functions; non-trivial = a function was entered / a cast succeeded; distinct = distinct case lines" % len(casts))
